@@ -12,6 +12,7 @@ reference model (lie_ref.group_matrix) and applied to the input points.
                    whenever the textbook iteration (reference ICP) recovers them.
   EPnP             pose recovered from exact projections, with and without refinement.
 """
+import copy
 import numpy as np
 import torch
 import pypose as pp
@@ -420,9 +421,12 @@ def run_icp(ck, rng, thorough):
     u = u_of("f64")
     reps = 120 if thorough else 14
     case = 0
+    # a user customises the stepper of ONE default-built object (a coarse two-step stage); other default-built objects keep the documented default
+    coarse = pp.module.ICP()
+    coarse.stepper.max_steps = 2
     shared = pp.module.ICP()          # reused across cases: the stepper must be reset by every call
     for rep in range(reps):
-        for mode in ("recover", "recover+init", "recover+superset", "far", "noisy", "partial", "short-stepper", "batched"):
+        for mode in ("recover", "recover+init", "recover+superset", "far", "noisy", "partial", "short-stepper", "batched", "recover+batched"):
             case += 1
             if not ck.mine(case):
                 continue
@@ -433,11 +437,17 @@ def run_icp(ck, rng, thorough):
                 # scan-sized clouds (beyond the 200 points of the other cases): sizes that are not a multiple of any power-of-two block
                 n = int(rng.choice([1100, 1500, 2100]))
                 ck.mark("ICP/scan-sized-cloud")
-            nb = int(rng.integers(2, 4)) if mode == "batched" else 1
+            if mode == "recover+batched":
+                n = int(rng.choice([90, 150]))
+            nb = int(rng.integers(2, 4)) if mode in ("batched", "recover+batched") else 1
             srcs, tgts, trues, inits = [], [], [], []
             m_extra = int(rng.integers(1, n + 1)) if mode in ("recover+superset", "partial") else 0
             for b in range(nb):
                 src = rng.uniform(-1, 1, (n, 3)) * 10.0 ** rng.integers(-1, 2) + rng.standard_normal(3) * rng.choice([0.0, 1.0, 5.0])
+                if mode == "recover+batched":
+                    # one batch: a large noisy cloud whose error sits on a plateau from the first iteration (item 1) next to small exact
+                    # clouds that need many iterations - each exact item is recovered as when it is run alone
+                    src = rng.uniform(-1, 1, (n, 3)) * (0.05, 100.0, 1.0)[b % 3]
                 if mode == "recover+init":
                     M0 = np.eye(4)
                     M0[:3, :3] = np.asarray(L.quat_R(G.random_quat(rng, 1)[0]), dtype=np.float64)
@@ -447,11 +457,15 @@ def run_icp(ck, rng, thorough):
                 moved0 = src @ M0[:3, :3].T + M0[:3, 3]
                 big = mode in ("far",) or (mode in ("noisy", "partial", "short-stepper", "batched") and rng.random() < 0.5)
                 P = small_rigid(rng, moved0, 60.0 if big else 5.0, 0.5 if big else 0.05)
+                if mode == "recover+batched" and b != 1:
+                    P = small_rigid(rng, moved0, 35.0, 0.15)     # needs 8-12 iterations on 90+ points
                 Mt = P @ M0
                 tgt = src @ Mt[:3, :3].T + Mt[:3, 3]
                 ext = float(np.linalg.norm(src.max(0) - src.min(0)))
                 if mode == "noisy":
                     tgt = tgt + rng.standard_normal(tgt.shape) * ext * 10.0 ** rng.uniform(-4, -1)
+                if mode == "recover+batched" and b == 1:
+                    tgt = tgt + rng.standard_normal(tgt.shape) * ext * 0.1
                 if mode == "partial":
                     tgt = tgt[: max(2, n - m_extra // 2)]
                 if m_extra:
@@ -521,7 +535,7 @@ def run_icp(ck, rng, thorough):
                    "mean_squared_closest_point_distance_larger_than_initial", lambda i: dict(wit, item=b, got=Xs[b], mse_initial=m0, mse_result=m1))
                 if m1 < m0:
                     ck.mark("ICP/strictly-improved")
-                if mode.startswith("recover"):
+                if mode.startswith("recover") and not (mode == "recover+batched" and b == 1):
                     Mref, conv = G.ref_icp(src, tgt, M0=Minit)
                     ref_err = float(np.abs((src @ Mref[:3, :3].T + Mref[:3, 3]) - (src @ Mt[:3, :3].T + Mt[:3, 3])).max())
                     inside = conv and ref_err <= 1e-9 * scale
@@ -584,9 +598,20 @@ def run_pnp(ck, rng, thorough):
                 Pw = np.stack([it[0] for it in items]).reshape(bshape + (n, 3))
                 Px = np.stack([it[1] for it in items]).reshape(bshape + (n, 2))
                 Ks = items[0][2] if (shareK or nb == 1) else np.stack([it[2] for it in items])
-                viaK = str(rng.choice(["constructor", "forward"]))
+                viaK = str(rng.choice(["constructor", "forward", "state_dict", "deepcopy"]))
                 if viaK == "constructor":
                     ep = pp.module.EPnP(intrinsics=tt(Ks), refine=refine)
+                    call = lambda: ep(tt(Pw), tt(Px))
+                elif viaK in ("state_dict", "deepcopy"):
+                    # object lifecycle: the configured camera travels with a checkpoint / a deep copy of the solver
+                    src_ep = pp.module.EPnP(intrinsics=tt(Ks), refine=refine)
+                    if viaK == "deepcopy":
+                        ep = copy.deepcopy(src_ep)
+                    else:
+                        placeholder = torch.eye(3, dtype=torch.float64).expand(tuple(np.shape(Ks))).clone()
+                        ep = pp.module.EPnP(intrinsics=placeholder, refine=refine)
+                        ep.load_state_dict(src_ep.state_dict())
+                    del src_ep
                     call = lambda: ep(tt(Pw), tt(Px))
                 else:
                     ep = pp.module.EPnP(refine=refine)
@@ -603,6 +628,7 @@ def run_pnp(ck, rng, thorough):
                     continue
                 X = out.tensor().detach().double().numpy().reshape(nb, 7)
                 ck.mark(f"EPnP/refine={refine}")
+                ck.mark("EPnP/K:" + viaK)
                 ck.mark(f"EPnP/N:{'6' if n == 6 else '7-8' if n <= 8 else '9-100'}")
                 ck.mark(f"EPnP/batch:{nb > 1}")
                 for b, (pw, px, K, Mt, pcr, geom) in enumerate(items):
@@ -654,7 +680,7 @@ def run(ck):
         ck.require(f"svdtf/{dn}/reflection-stress", f"svdstf/{dn}/reflection-stress", minimum=2000)
     ck.require("autograd/source-requires-grad", "autograd/target-requires-grad", "autograd/no_grad", "autograd/stress/source-requires-grad")
     ck.require("ICP/scan-sized-cloud")
-    ck.require("ICP/after-call-with-forward-init", "ICP/recover", "ICP/recover+init", "ICP/recover+superset", "ICP/far", "ICP/noisy", "ICP/partial", "ICP/short-stepper",
+    ck.require("ICP/recover+batched", "EPnP/K:state_dict", "EPnP/K:deepcopy", "ICP/after-call-with-forward-init", "ICP/recover", "ICP/recover+init", "ICP/recover+superset", "ICP/far", "ICP/noisy", "ICP/partial", "ICP/short-stepper",
                "ICP/batched", "ICP/init:none", "ICP/init:constructor", "ICP/init:forward", "ICP/reused-object",
                "ICP/recovered-inside-basin", "ICP/strictly-improved",
                "EPnP/refine=True", "EPnP/refine=False", "EPnP/N:6", "EPnP/N:7-8", "EPnP/N:9-100", "EPnP/batch:True", "EPnP/batch:False")
